@@ -306,3 +306,48 @@ def r10_10(rep):
     `vtable_` and size 32 instead of 24."""
     import c07
     c07.r7_1(rep)
+
+
+DEFINING_KINDS_EXEMPT = {
+    "ObjCInterface": "an Objective-C interface is emitted as a handle type and a trait, never with its instance layout",
+    "BlockPointer": "a block typedef is a type alias to a pointer; it has no members to hide",
+    "TemplateInstantiation": "an instantiation emits layout assertions only; the definition's own arm decides about opacity",
+    "ObjCSel": "Objective-C builtin (`SEL`): only a marker that the `objc` prelude is needed",
+    "ObjCId": "Objective-C builtin (`id`): only a marker that the `objc` prelude is needed",
+}
+
+
+@RULES.rule("R10.11", "every kind of type that gets a definition honours `opaque`", floor=4)
+def r10_11(rep):
+    """`--opaque-type X` / the `opaque` annotation promise a member-less blob.  `Type::codegen` dispatches per kind; each arm that
+    emits a definition has to ask `item.is_opaque(..)` itself or hand over to a generator that does (CompInfo, the alias arm).
+    The enum arm does neither: `--opaque-type E` for `enum E { A, B }` still emits the enumerators and the type as usual."""
+    from hir import pat_variants as _pv
+    prog = rep.prog
+    tb = rep.need(prog.impl_fn(CG, "ir::ty::Type", "codegen"), "<Type as CodeGenerator>::codegen")
+    ms = [m for m in tb.nodes if m["k"] == "Match" and (tb.ty(m["scrut"]) or "").replace("&", "").endswith("TypeKind")]
+    rep.need(ms, "match on the type kind in Type::codegen")
+    m = ms[0]
+    n = 0
+    for a in m["arms"]:
+        kinds = [v.split("::")[-1] for v in _pv(a["pat"]) if v.startswith("ir::ty::TypeKind::")]
+        body = a["body"]
+        emits = any(x["k"] in ("Call", "MCall") and not tb.macro_name(x) for x in tb.walk(body))
+        if not kinds or not emits:
+            continue
+        n += 1
+        key = "opaque-honoured:" + "|".join(kinds)
+        if all(k in DEFINING_KINDS_EXEMPT for k in kinds):
+            rep.ok(key, "exempt: " + DEFINING_KINDS_EXEMPT[kinds[0]], tb.loc(body))
+            continue
+        asks = any(x["k"] == "MCall" and x.get("name") == "is_opaque" for x in tb.walk(body))
+        if not asks:
+            # delegated generator asks?
+            for c in tb.calls(lambda x: x["k"] == "MCall" and x.get("trait") == CG, body):
+                cb = prog.fn(str(c.get("resolved") or ""))
+                if cb is not None and any(x["k"] == "MCall" and x.get("name") == "is_opaque" for x in cb.nodes):
+                    asks = True
+        rep.check(asks, key, "the arm (or the generator it delegates to) asks item.is_opaque" if asks else
+                  "neither the %s arm nor the generator it calls looks at `is_opaque`: a type of this kind marked opaque is emitted in full" % "|".join(kinds),
+                  tb.loc(body))
+    rep.need(n >= 4, "defining arms of Type::codegen (Comp, Alias, Enum, ..)")
